@@ -28,6 +28,17 @@ def evalLine (line : String) : String :=
   | "auto" => match bytesSpec? rest with
     | some x => outcomeStr (opAuto x)
     | none => "bad-op"
+  | "autoc" =>
+    let cls? : String → Option Auto.Cls := fun t =>
+      match t with | "ok" => some .ok | "inc" => some .inc | "term" => some .term | _ => none
+    match rest.splitOn " " with
+    | [a, b] => match cls? a, cls? b with
+      | some c2, some c1 =>
+        let (isV2, c) := Auto.verdict c2 c1
+        let cn := match c with | .ok => "ok" | .inc => "inc" | .term => "term"
+        s!"tag={if isV2 then "v2" else "v1"} cls={cn}"
+      | _, _ => "bad-op"
+    | _ => "bad-op"
   | "fmt1" => optStr (opFmt1 rest)
   | "rt1" => optStr (opRt1 rest)
   | "ctor" => optStr (opCtor rest)
